@@ -433,8 +433,48 @@ fn sweep_short_bytes(cx: &mut Ctx, len: usize) {
     }
 }
 
+/// Text fixtures: every run of decimal digits (a length, a threshold, a return value) replaced by
+/// numbers at and beyond the machine-word boundaries.
+fn number_blowups(bytes: &[u8]) -> Vec<Vec<u8>> {
+    let Ok(text) = std::str::from_utf8(bytes) else { return vec![] };
+    let b = text.as_bytes();
+    let mut runs = vec![];
+    let mut i = 0;
+    while i < b.len() {
+        if b[i].is_ascii_digit() && (i == 0 || !b[i - 1].is_ascii_hexdigit()) {
+            let s = i;
+            while i < b.len() && b[i].is_ascii_digit() {
+                i += 1;
+            }
+            if i == b.len() || !b[i].is_ascii_hexdigit() {
+                runs.push((s, i));
+            }
+        } else {
+            i += 1;
+        }
+    }
+    let mut out = vec![];
+    for (s, e) in runs.into_iter().take(24) {
+        for r in ["18446744073709551615", "18446744073709551616", "18446744073709551620", "99999999999999999999999999999999999999999", "9223372036854775808", "4294967296", "-1", "00000000000000000000000001", "1e400", "+4", ""] {
+            let mut d = b[..s].to_vec();
+            d.extend_from_slice(r.as_bytes());
+            d.extend_from_slice(&b[e..]);
+            out.push(d);
+        }
+    }
+    out
+}
+
 fn sweep_fixture_corruption(cx: &mut Ctx, thorough: bool) {
     let decs = decoders();
+    for (fname, bytes, targets) in fixtures() {
+        let my: Vec<&Entry> = decs.iter().filter(|(n, _)| targets.iter().any(|t| n.starts_with(t))).collect();
+        for c in number_blowups(&bytes) {
+            for (name, f) in &my {
+                cx.case(name, || f(&c), || json!({"sweep": "fixture-corruption", "fixture": fname, "input_hex": util::hex(&c), "kind": "number replaced"}));
+            }
+        }
+    }
     for (fname, bytes, targets) in fixtures() {
         let stride = if thorough { 1 } else { (bytes.len() / 160).max(1) };
         let my_decs: Vec<&Entry> = decs.iter().filter(|(n, _)| targets.iter().any(|t| n.starts_with(t))).collect();
@@ -961,7 +1001,7 @@ pub fn run(tier: Tier) -> i32 {
     acc.sample(|| json!({"sweep": "adversarial-verify", "layout": "step \"[\" threshold 4294967295", "link_file": "keyid with a multi-byte character across byte 8"}));
     c.acc = acc;
     c.rule = format!(
-        "sweeps: (1) every byte string of length <= {} over {{ }} [ ] \" : , 0 - a \\ 0xff into each of {} entry points; (2) every truncation and, at every {}offset, delete / 0x00 / 0x80 / 0xff / low-bit flip / insert 0x30 of {} fixtures into the matching entry points; (3) every node of every JSON fixture replaced by each of {} values, deleted, duplicated; (4) hostile artifact paths x hostile patterns x all rule kinds through the rule engine; (5) hostile layouts x hostile link files through in_toto_verify in a private cwd; (6) link-directory entries that are not regular UTF-8 files (0xff bytes, BOM, UTF-16, 1 MiB of brackets, a directory / dangling / self-referential symlink / unreadable file named like a link file), delegation trees that are self-similar (sub-directory symlinked to its parent; 8 / 64 / 300 real levels) or hostile below the first level, and record_artifact / record_artifacts on paths that name no readable file (the builder methods add_material / add_product take an operator-chosen path, return no Result and are outside this property). Each case also exercises the follow-up calls (verify, prefix, to_bytes, sign). distinct_nontrivial = cases run (each is a distinct input)",
+        "sweeps: (1) every byte string of length <= {} over {{ }} [ ] \" : , 0 - a \\ 0xff into each of {} entry points; (2) every truncation and, at every {}offset, delete / 0x00 / 0x80 / 0xff / low-bit flip / insert 0x30, and every decimal number replaced by 11 boundary spellings, of {} fixtures into the matching entry points; (3) every node of every JSON fixture replaced by each of {} values, deleted, duplicated; (4) hostile artifact paths x hostile patterns x all rule kinds through the rule engine; (5) hostile layouts x hostile link files through in_toto_verify in a private cwd; (6) link-directory entries that are not regular UTF-8 files (0xff bytes, BOM, UTF-16, 1 MiB of brackets, a directory / dangling / self-referential symlink / unreadable file named like a link file), delegation trees that are self-similar (sub-directory symlinked to its parent; 8 / 64 / 300 real levels) or hostile below the first level, and record_artifact / record_artifacts on paths that name no readable file (the builder methods add_material / add_product take an operator-chosen path, return no Result and are outside this property). Each case also exercises the follow-up calls (verify, prefix, to_bytes, sign). distinct_nontrivial = cases run (each is a distinct input)",
         if thorough { 4 } else { 3 },
         decoders().len(),
         if thorough { "" } else { "(strided) " },
